@@ -207,3 +207,63 @@ def run_actor(spec, workdir, timeout=180):
     if not os.path.exists(spec["out"]):
         return ("died", r.returncode, r.stderr.decode(errors="replace")[-800:])
     return read_pickle(spec["out"])
+
+
+def stale_settings_scenario(xyzpy, tmp, variant, farmer=False):
+    """A long-lived Crop object M has looked at a crop; the crop is then deleted and sown ANEW by another object - another
+    grid of the same number of settings (variant 'grid': 2 x 3 -> 3 x 2) or another batching (variant 'batching': 2 batches
+    of 5 -> 5 batches of 2), whose settings file happens to have the same size - within the same moment, and the new settings
+    file carries the time stamp of the old one (a coarse-grained file system, a directory restored with preserved times).
+    What M then reports, grows and reaps is the crop that IS there.  Returns a list of problems (strings)."""
+    import os
+    from . import probe, refmodel
+    name = "stale"
+    kind = "int"
+    problems = []
+    fn = probe.Probe(kind, name="sprobe")
+    if variant == "grid":
+        g1, g2 = {"a": [1, 2], "b": [1, 2, 3]}, {"a": [1, 2, 3], "b": [1, 2]}
+        k1 = k2 = {"batchsize": 2}
+    else:
+        g1 = g2 = {"a": list(range(1, 11))}
+        k1, k2 = {"batchsize": 5}, {"batchsize": 2}
+
+    def mk(kw):
+        if farmer:
+            return xyzpy.Runner(fn, "y").Crop(name=name, parent_dir=tmp, **kw)
+        return xyzpy.Crop(fn=fn, name=name, parent_dir=tmp, **kw)
+    a = mk(k1)
+    a.sow_combos(g1, verbosity=0)
+    settings = os.path.join(crop_dir(tmp, name), "xyz-settings.jbdmp")
+    m = xyzpy.Crop(name=name, parent_dir=tmp)
+    _ = (m.num_sown_batches, tuple(m.missing_results()), m.is_ready_to_reap(), str(m))
+    st = os.stat(settings)
+    a.delete_all()
+    b = mk(k2)
+    b.sow_combos(g2, verbosity=0)
+    os.utime(settings, ns=(st.st_atime_ns, st.st_mtime_ns))
+    same_size = os.stat(settings).st_size == st.st_size
+    fresh = xyzpy.Crop(name=name, parent_dir=tmp)
+    # (progress is asked for first: that is when a Crop object looks at the disk again)
+    rep_m = (m.num_sown_batches, tuple(m.missing_results()), m.batchsize, m.num_batches)
+    rep_f = (fresh.num_sown_batches, tuple(fresh.missing_results()), fresh.batchsize, fresh.num_batches)
+    if rep_m != rep_f:
+        problems.append("a Crop object that had looked at the earlier crop reports (sown, missing, batchsize, num_batches) = %r for the crop "
+                        "sown anew; a freshly loaded one reports %r" % (rep_m, rep_f))
+    m.grow_missing()
+    res = m.reap()
+    if farmer:
+        for p in refmodel.grid_points([(k, v) for k, v in g2.items()]):
+            try:
+                got = res.sel(p)["y"].values.item()
+            except Exception as e:
+                problems.append("the reaped Dataset cannot be read at %r: %r" % (p, e))
+                break
+            if refmodel.deep_eq(got, probe.make(kind, p)):
+                problems.append("the reaped Dataset holds %r at %r, the function gives %r" % (got, p, probe.make(kind, p)))
+                break
+    else:
+        d, _ = compare_nest(res, {"mode": "grid", "combos": [[k, v] for k, v in g2.items()], "names": None, "cases": None}, {}, kind)
+        if d:
+            problems.append("the reaped result of the crop sown anew differs from a direct run: " + d)
+    return problems, same_size
